@@ -117,7 +117,7 @@ def aux_state(h, res):
 
 
 # ------------------------------------------------------------------------------- size thresholds named by the tree itself
-SIZE_CAP = 260       # sizes explored by the 'deep' scale shape (cost linear in the size)
+SIZE_CAP = 520       # sizes explored by the 'deep' scale shape (cost linear in the size; 501 = half of CPython's default recursion limit + 1)
 HUB_CAP = 130        # ... by the shapes whose cost grows faster
 
 
